@@ -7,7 +7,6 @@ import (
 	"go/types"
 	"golang.org/x/tools/go/packages"
 	"sort"
-	"strings"
 
 	"golang.org/x/tools/go/cfg"
 
@@ -617,6 +616,12 @@ func ruleResetBeforeTerminal() check.Rule {
 								}
 							}
 						}
+						// the same store through a method of a flag type (hasBeenReset.set())
+						if o, _, ok := atomicFlagStore(m, p, y); ok {
+							if v, isVar := o.(*types.Var); isVar && locals[v] {
+								found = true
+							}
+						}
 					case *ast.AssignStmt:
 						for _, l := range y.Lhs {
 							if id, isID := ast.Unparen(l).(*ast.Ident); isID {
@@ -942,18 +947,14 @@ func ruleResetReleases() check.Rule {
 			set1, set0 := map[types.Object]bool{}, map[types.Object]bool{}
 			ast.Inspect(sc.Lit.Body, func(x ast.Node) bool {
 				call, ok := x.(*ast.CallExpr)
-				if !ok || len(call.Args) != 2 {
+				if !ok {
 					return true
 				}
-				if cl := model.Callee(info, call); cl != nil && cl.Pkg() != nil && cl.Pkg().Path() == "sync/atomic" && strings.HasPrefix(cl.Name(), "Store") {
-					if id, _ := rootIdent(call.Args[0]); id != nil {
-						if v, ok := constVal(info, call.Args[1]); ok {
-							if v == 0 {
-								set0[objOf(info, id)] = true
-							} else {
-								set1[objOf(info, id)] = true
-							}
-						}
+				if o, v, ok := atomicFlagStore(m, p, call); ok && o != nil {
+					if v == 0 {
+						set0[o] = true
+					} else {
+						set1[o] = true
 					}
 				}
 				return true
